@@ -28,7 +28,47 @@ def ok_returns(f):
     return [b for b in f.returns() if b in r], resid
 
 
+def rule_refill(chk, prog):
+    """The inline UDP channel treats a read of 0 bytes as the end of the stream.  The buffer it hands to read() is therefore never
+    empty: it is a whole buffer whose length was just set to a positive constant.  A slice `buf[filled..]` of a buffer sized to an
+    absolute constant becomes empty once `filled` reaches that constant: a frame longer than the constant (a maximum-size datagram
+    plus its header) then reads 0 bytes, the datagram is dropped and the association ends as if the peer had closed it."""
+    sr = prog.find(r"StreamFrameReader<T> as common::frames::FrameReader>::read$", "redproxy_rs")
+    if len(sr) != 1:
+        chk.anchor_missing("REFILL", "StreamFrameReader::read")
+        return
+    g = prog.body_of(sr[0])
+    reads = [c for c in g.calls if re.search(r"AsyncReadExt::read$", c.path or "")]
+    chk.floor("REFILL", len(reads), 1, "raw reads in StreamFrameReader::read")
+    for c in reads:
+        l = op_base(c.args[1]) if len(c.args) > 1 else None
+        tr = g.trace(l, through_calls=[r"ops::deref::DerefMut::deref_mut$", r"ops::deref::Deref::deref$"]) if l is not None else []
+        sliced = [info for k, info in tr if k == "call" and re.search(r"ops::index::Index(Mut)?::index(_mut)?$|split_at|slice::<impl \\[T\\]>::get", info.path or "")]
+        root = None
+        for k, info in tr:
+            if k in ("ref", "place"):
+                root = info[0]
+        sized = []
+        for x in g.calls:
+            if re.search(r"bytes_mut::BytesMut::(set_len|resize)$|vec::Vec::<T, A>::(set_len|resize)$", x.path or "") and len(x.args) >= 2 and g.dominates(x.bb, c.bb):
+                xr = None
+                for k, info in g.trace(op_base(x.args[0]), through_calls=[r"ops::deref::DerefMut::deref_mut$"]) if op_base(x.args[0]) is not None else []:
+                    if k in ("ref", "place"):
+                        xr = info[0]
+                v = g.int_of(x.args[1])
+                if xr == root and v is not None and v > 0:
+                    sized.append(v)
+        ok = not sliced and bool(sized)
+        chk.instance("REFILL", c.where(), "the buffer handed to read() is a whole buffer of positive constant length", ok,
+                     "sliced: %s; length set to %s" % (bool(sliced), sized))
+        if not ok:
+            chk.finding("REFILL", g.key, "read-buffer-may-be-empty", "", c.where(),
+                        "StreamFrameReader::read hands read() a buffer that is not provably non-empty (%s): a 0-byte read is taken for end of stream, so a frame "
+                        "that fills the buffer to its fixed size is dropped and the UDP association ends" % ("a sub-slice of the buffer" if sliced else "no positive constant length"))
+
+
 def run(chk, prog):
+    rule_refill(chk, prog)
     # ---------------------------------------------------------------- LIN
     accept_fns = []
     for pat in (r"^listeners::reverse::ReverseProxyListener::udp_accept$", r"^listeners::tproxy::TProxyListener::udp_accept$"):
